@@ -15,6 +15,7 @@ import (
 	"runtime/debug"
 	"sort"
 	"strings"
+	"sync/atomic"
 	"time"
 )
 
@@ -133,13 +134,17 @@ type Sched struct {
 
 var cur *Sched
 
+// freeClock is the timestamp source outside an exploration (the free-running -race complement
+// records histories too): a global atomic counter is consistent with real time.
+var freeClock int64
+
 // Now returns a logical timestamp (monotone; one tick per call) for history recording.
 func Now() int64 {
 	if s := cur; s != nil {
 		s.clock++
 		return s.clock
 	}
-	return 0
+	return atomic.AddInt64(&freeClock, 1)
 }
 
 const watchdog = 20 * time.Second
